@@ -98,6 +98,16 @@ impl WorkerPool {
                         if retry && matches!(reply, Reply::Timeout) {
                             reply = w.request(&line, timeout * 3);
                         }
+                        // a death that is neither an allocation failure nor a stack overflow is
+                        // confirmed by one retry in a fresh worker (the machine's OOM killer or a
+                        // neighbour's `kill` must not be charged to koto)
+                        if let Reply::Died(st) = &reply {
+                            let tail = std::fs::read_to_string(&*errfile).unwrap_or_default();
+                            if classify_death(&format!("{} :: {}", st, tail)) == "abort" {
+                                let _ = std::fs::write(&*errfile, b"");
+                                reply = w.request(&line, timeout * 3);
+                            }
+                        }
                         let o = match reply {
                             Reply::Ok(s) => match serde_json::from_str::<Value>(&s) {
                                 Ok(v) => Outcome::Json(v),
